@@ -5,7 +5,8 @@
    (2) when the mantissa fits in the conversion precision (bc <= bitprec), the decimal digit integer produced by
    to_digits_exp is exactly floor(x * 10^fixdps): nothing is lost before the half-up rounding of to_str.
    Not proved: nearest-ness when bc > bitprec is false (known finding C08-nstr-long-mantissa). *)
-From Coq Require Import ZArith.
+From Coq Require Import ZArith List.
+Import ListNotations.
 From MP Require Import Algo.Base Algo.Libmpf Algo.Str Proofs.StrDigits.
 Open Scope Z_scope.
 
